@@ -19,8 +19,17 @@
               den = 0  : a big integral value, sign num \in {-1,1}, magnitude
                          the limb sequence s (base 10^4, little endian,
                          Len >= 3, so |value| >= 10^8 > every small value)
-     s      Seq(Nat): code points of a string / pattern payload / the 14
-            digits YYYYMMDDHHMMSS of a date / the limbs of a big number
+              den <= -1, num \in {-1,1} : a "fine" decimal, any double that is
+                         neither of the above (0.3, 0.1 + 0.2, 1 + 2^-52):
+                         sign num, value = M / 2^(-den) with M the odd natural
+                         whose limbs are s - exact, so that neighbouring
+                         doubles are different values of the model
+     s      Seq(Nat): code points of a string / pattern payload / the limbs
+            of a big or fine number / the seven fields <<year, month, day,
+            hour, minute, second, microsecond>> of a date (an instant to the
+            resolution the implementation stores; not its rendered text: two
+            dates inside one second are different values, and the order below
+            is chronological by construction, whatever the text looks like)
      items  Seq(value): list elements; set elements or map keys as the
             sequence of representatives in insertion order, without
             Equal-duplicates (that is what a host hash container keeps)
@@ -37,6 +46,7 @@ VBigInt(sg, l)   == Mk("int", <<sg, 0>>, l, << >>, << >>)
 VDec(p, q)       == Mk("dec", <<p, q>>, << >>, << >>, << >>)
 VNegZero         == VDec(0, -1)
 VBigDec(sg, l)   == Mk("dec", <<sg, 0>>, l, << >>, << >>)         \* integral-valued
+VFine(sg, l, e)  == Mk("dec", <<sg, -e>>, l, << >>, << >>)        \* sg * l / 2^e, l odd, e >= 1
 VStr(s)          == Mk("str", NoN, s, << >>, << >>)
 VDate(s)         == Mk("date", NoN, s, << >>, << >>)
 VPat(s)          == Mk("pat", NoN, s, << >>, << >>)
@@ -54,6 +64,7 @@ Min2(a, b) == IF a < b THEN a ELSE b
 
 IsNum(v) == v.k \in {"int", "dec"}
 IsBig(v) == v.n[2] = 0
+IsFine(v) == v.n[2] < 0 /\ v.n[1] # 0          \* (<<0, -1>> is negative zero)
 
 \* order kind: ints and decimals are ordered together
 Rank(v) == CASE v.k = "null" -> 0 [] v.k = "bool" -> 1 [] v.k = "int" -> 2
@@ -75,8 +86,39 @@ MagCmp(x, y) ==
        IF D = {} THEN 0
        ELSE LET m == MaxOf(D) IN IF x[m] < y[m] THEN -1 ELSE 1
 
+(* Every number is sign * M / 2^e with a natural M (as limbs) and e >= 0:
+   small p/q (q = 2^e), big (e = 0), fine.  Two numbers of one sign compare
+   as their numerators over the common denominator 2^max(e). *)
+RECURSIVE MulCarry(_, _, _), Shl(_, _)
+\* the limbs of l * k + c (k <= 8192, c < 10^4: no 32 bit overflow)
+MulCarry(l, k, c) ==
+  IF l = << >> THEN (IF c = 0 THEN << >> ELSE <<c>>)
+  ELSE LET t == Head(l) * k + c IN <<t % 10000>> \o MulCarry(Tail(l), k, t \div 10000)
+\* l * 2^e
+Shl(l, e) == IF e = 0 THEN l
+             ELSE IF e >= 13 THEN Shl(MulCarry(l, 8192, 0), e - 13)
+             ELSE Shl(MulCarry(l, 2, 0), e - 1)
+NatLimbs(n) == IF n = 0 THEN << >>
+               ELSE IF n < 10000 THEN <<n>>
+               ELSE IF n < 100000000 THEN <<n % 10000, n \div 10000>>
+               ELSE <<n % 10000, (n \div 10000) % 10000, n \div 100000000>>
+Log2(q) == CHOOSE e \in 0..10 : 2^e = q
+SignOf(v) == IF IsBig(v) \/ IsFine(v) THEN v.n[1]
+             ELSE IF v.n[1] < 0 THEN -1 ELSE IF v.n[1] > 0 THEN 1 ELSE 0
+MantOf(v) == IF IsBig(v) \/ IsFine(v) THEN v.s ELSE NatLimbs(Abs(v.n[1]))
+Exp2Of(v) == IF IsBig(v) THEN 0 ELSE IF IsFine(v) THEN -v.n[2]
+             ELSE IF v.n[2] < 0 THEN 0 ELSE Log2(v.n[2])
+NumCmpG(a, b) ==
+  LET sa == SignOf(a)  sb == SignOf(b) IN
+  IF sa # sb THEN (IF sa < sb THEN -1 ELSE 1)
+  ELSE IF sa = 0 THEN 0
+  ELSE LET ea == Exp2Of(a)  eb == Exp2Of(b)
+           m  == IF ea > eb THEN ea ELSE eb
+       IN sa * MagCmp(Shl(MantOf(a), m - ea), Shl(MantOf(b), m - eb))
+
 NumCmp(a, b) ==
-  CASE IsBig(a) /\ IsBig(b) ->
+  CASE IsFine(a) \/ IsFine(b) -> NumCmpG(a, b)
+    [] IsBig(a) /\ IsBig(b) ->
          IF a.n[1] # b.n[1] THEN (IF a.n[1] < b.n[1] THEN -1 ELSE 1)
          ELSE a.n[1] * MagCmp(a.s, b.s)
     [] IsBig(a) /\ ~IsBig(b) -> a.n[1]
@@ -91,6 +133,27 @@ SeqLess(x, y) ==
       D == {i \in 1..m : x[i] # y[i]}
   IN IF D = {} THEN Len(x) < Len(y)
      ELSE LET i == MinOf(D) IN x[i] < y[i]
+
+-----------------------------------------------------------------------------
+(* Dates: an instant <<year, month, day, hour, minute, second, microsecond>>
+   of the proleptic Gregorian calendar (values.py ValueDate wraps a host
+   datetime).  The fields run from the most to the least significant and each
+   has a fixed range, so the lexicographic order of the field sequence is the
+   chronological order; DayNo / Instant restate it through the day count. *)
+IsLeap(y) == y % 4 = 0 /\ (y % 100 # 0 \/ y % 400 = 0)
+DaysIn(y, m) == IF m = 2 THEN (IF IsLeap(y) THEN 29 ELSE 28)
+                ELSE IF m \in {4, 6, 9, 11} THEN 30 ELSE 31
+DateWF(s) == /\ Len(s) = 7
+             /\ s[1] \in 1..9999 /\ s[2] \in 1..12 /\ s[3] >= 1 /\ s[3] <= DaysIn(s[1], s[2])
+             /\ s[4] \in 0..23 /\ s[5] \in 0..59 /\ s[6] \in 0..59 /\ s[7] \in 0..999999
+CumDays == <<0, 31, 59, 90, 120, 151, 181, 212, 243, 273, 304, 334>>
+\* day number (0001-01-01 = 1), second of the day, microsecond
+DayNo(s) == LET y == s[1] - 1 IN
+            365 * y + y \div 4 - y \div 100 + y \div 400
+            + CumDays[s[2]] + (IF s[2] > 2 /\ IsLeap(s[1]) THEN 1 ELSE 0) + s[3]
+Instant(s) == <<DayNo(s), 3600 * s[4] + 60 * s[5] + s[6], s[7]>>
+\* the same instant without its sub-second part
+WholeSecond(s) == [s EXCEPT ![7] = 0]
 
 -----------------------------------------------------------------------------
 (* C06: Equal.  C07: Less.
@@ -154,7 +217,7 @@ LessN(a, b) ==
          [] a.k = "bool" -> a.n[1] < b.n[1]               \* FALSE before TRUE
          [] a.k = "ref" -> a.n[1] < b.n[1]
          [] a.k = "str" -> SeqLess(a.s, b.s)              \* code points, prefix first
-         [] a.k = "date" -> SeqLess(a.s, b.s)             \* chronological (fixed width stamp)
+         [] a.k = "date" -> SeqLess(a.s, b.s)             \* chronological (fields, most significant first)
          [] a.k = "pat" -> SeqLess(a.s, b.s)
          [] a.k = "list" -> ItemsLessN(a.items, b.items)  \* element-wise lexicographic
          [] a.k = "set" -> ItemsLessN(a.items, b.items)   \* (elements already ascending)
@@ -233,6 +296,98 @@ ListFind(l, v)  == IndexOf(l.items, v) - 1
 ListHas(l, v)   == Has(l.items, v)
 
 -----------------------------------------------------------------------------
+(* C06: values with a history.  A list, a set, a map and a string are objects
+   that programs change in place: `l[i] = e`, append, insert_at, delete_at,
+   remove, put / `m[k] = x`, `s[i] = c`, and the same one or more levels down
+   (an element of a list, a value of a map).  The statement speaks of VALUES:
+   "whichever equal representative is used" includes a representative that was
+   a set member or map key before (its hash was taken) and was edited into its
+   present content afterwards.  ApplyEdit is the effect of one edit on the
+   content; every read (Equal, Has, MapGet, ...) is a function of the content
+   alone, so nothing about the past of a value can influence them.
+
+   op = [name, i, e, x]: i a 1-based position (0 when unused), e / x values
+   (VNull when unused).  A path step is [i, key]: position i of a list, or
+   (i = 0) the value stored under `key` in a map.                            *)
+EOp(name, i, e, x) == [name |-> name, i |-> i, e |-> e, x |-> x]
+PStep(i, key) == [i |-> i, key |-> key]
+
+EditOK(v, op) ==
+  CASE op.name = "setat"    -> v.k = "list" /\ op.i \in 1..Len(v.items)
+    [] op.name = "append"   -> v.k \in {"list", "set"}
+    [] op.name = "insertat" -> v.k = "list" /\ op.i \in 1..(Len(v.items) + 1)
+    [] op.name = "deleteat" -> v.k = "list" /\ op.i \in 1..Len(v.items)
+    [] op.name = "remove"   -> v.k \in {"list", "set", "map"} /\ Has(v.items, op.e)
+    [] op.name = "put"      -> v.k = "map"
+    [] op.name = "setchar"  -> v.k = "str" /\ op.i \in 1..Len(v.s)
+                               /\ op.e.k = "str" /\ Len(op.e.s) = 1
+    [] OTHER -> FALSE
+
+ApplyEdit(v, op) ==
+  CASE op.name = "setat"    -> VList([v.items EXCEPT ![op.i] = op.e])
+    [] op.name = "append"   -> IF v.k = "set" THEN SetAdd(v, op.e) ELSE VList(Append(v.items, op.e))
+    [] op.name = "insertat" -> VList(SubSeq(v.items, 1, op.i - 1) \o <<op.e>>
+                                     \o SubSeq(v.items, op.i, Len(v.items)))
+    [] op.name = "deleteat" -> VList(DropAt(v.items, op.i))
+    [] op.name = "remove"   -> IF v.k = "list" THEN VList(DropAt(v.items, IndexOf(v.items, op.e)))
+                               ELSE IF v.k = "set" THEN SetRemove(v, op.e) ELSE MapRemove(v, op.e)
+    [] op.name = "put"      -> MapPut(v, op.e, op.x)
+    [] op.name = "setchar"  -> VStr([v.s EXCEPT ![op.i] = op.e.s[1]])
+
+RECURSIVE PathOK(_, _), SubAt(_, _), EditAt(_, _, _)
+StepIdx(v, st) == IF st.i > 0 THEN st.i ELSE IndexOf(v.items, st.key)
+PathOK(v, path) ==
+  IF path = << >> THEN TRUE
+  ELSE LET st == Head(path) IN
+       /\ (st.i > 0 /\ v.k = "list" /\ st.i <= Len(v.items)) \/ (st.i = 0 /\ v.k = "map" /\ Has(v.items, st.key))
+       /\ PathOK(IF v.k = "list" THEN v.items[st.i] ELSE v.vals[StepIdx(v, st)], Tail(path))
+SubAt(v, path) ==
+  IF path = << >> THEN v
+  ELSE LET st == Head(path) IN
+       SubAt(IF v.k = "list" THEN v.items[st.i] ELSE v.vals[StepIdx(v, st)], Tail(path))
+EditAt(v, path, op) ==
+  IF path = << >> THEN ApplyEdit(v, op)
+  ELSE LET st == Head(path)  q == StepIdx(v, st) IN
+       IF v.k = "list" THEN VList([v.items EXCEPT ![q] = EditAt(v.items[q], Tail(path), op)])
+       ELSE VMap(v.items, [v.vals EXCEPT ![q] = EditAt(v.vals[q], Tail(path), op)])
+
+(* C06: the resolution of dates.  The statement does not say whether two dates
+   inside one second are equal; it does say that WHATEVER equality answers,
+   hashing, membership, lookup and container equality follow it.  Coarse(v) is
+   v with every date cut to the whole second: a pair that is unequal only
+   through sub-second parts is judged on consistency alone.  (C07 does name
+   the order of dates - chronological - so there the instants decide.)      *)
+RECURSIVE Coarse(_)
+Coarse(v) ==
+  IF v.k = "date" THEN VDate(WholeSecond(v.s))
+  ELSE IF v.k \in {"list", "set", "map"}
+       THEN Mk(v.k, NoN, << >>, [i \in DOMAIN v.items |-> Coarse(v.items[i])],
+               [i \in DOMAIN v.vals |-> Coarse(v.vals[i])])
+       ELSE v
+ResolutionOnly(a, b) == ~Equal(a, b) /\ Equal(Coarse(a), Coarse(b))
+
+-----------------------------------------------------------------------------
+(* C07: min / max, and the enumerations of a set / a map.
+   "`min` and `max` are consistent with it": the result is an element no other
+   element is below (above).  The loop of core.ckl replaces its candidate only
+   by a strictly smaller (greater) one, so among Equal extremes it returns the
+   first; the statement does not name which one (compared as drift).        *)
+IsLeastAt(keys, i)    == i \in DOMAIN keys /\ \A j \in DOMAIN keys : ~Less(keys[j], keys[i])
+IsGreatestAt(keys, i) == i \in DOMAIN keys /\ \A j \in DOMAIN keys : ~Less(keys[i], keys[j])
+FirstLeast(keys)    == MinOf({i \in DOMAIN keys : IsLeastAt(keys, i)})
+FirstGreatest(keys) == MinOf({i \in DOMAIN keys : IsGreatestAt(keys, i)})
+
+\* what a program sees when it enumerates a set / a map in one of the ways the
+\* language offers: the elements / keys ascending, the values and the entries
+\* in the order of their keys
+EnumKeys(v)    == Norm(v).items
+EnumVals(v)    == LET nv == Norm(VMap(v.items, v.vals)) IN nv.vals
+EnumEntries(v) == LET nv == Norm(VMap(v.items, v.vals)) IN
+                  [p \in DOMAIN nv.items |-> VList(<<nv.items[p], nv.vals[p]>>)]
+\* Norm normalises the values too; the enumeration yields the values themselves:
+\* compare enumerated values with Equal, not with =
+
+-----------------------------------------------------------------------------
 (* C08: the text form, as code points. *)
 
 Digit(d) == 48 + d
@@ -240,16 +395,35 @@ RECURSIVE NatDigits(_), FracDigits(_, _), Flat(_)
 NatDigits(n) == IF n < 10 THEN <<Digit(n)>> ELSE NatDigits(n \div 10) \o <<Digit(n % 10)>>
 Pad4(l) == <<Digit(l \div 1000), Digit((l \div 100) % 10), Digit((l \div 10) % 10), Digit(l % 10)>>
 Flat(ss) == IF ss = << >> THEN << >> ELSE Head(ss) \o Flat(Tail(ss))
+Pad2(x) == <<Digit(x \div 10), Digit(x % 10)>>
+\* the 14 digits YYYYMMDDHHMMSS a date is written with (whole seconds)
+Stamp(s) == Pad4(s[1]) \o Pad2(s[2]) \o Pad2(s[3]) \o Pad2(s[4]) \o Pad2(s[5]) \o Pad2(s[6])
 LimbDigits(l) == LET n == Len(l) IN
   NatDigits(l[n]) \o Flat([i \in 1..(n - 1) |-> Pad4(l[n - i])])
 \* digits of r/q after the point, 0 <= r < q, q a power of two: finite
 FracDigits(r, q) == IF r = 0 THEN << >>
                     ELSE <<Digit((r * 10) \div q)>> \o FracDigits((r * 10) % q, q)
 
-IsNeg(v) == IF IsBig(v) THEN v.n[1] < 0 ELSE (v.n[1] < 0 \/ v.n[2] < 0)
+IsNeg(v) == IF IsBig(v) \/ IsFine(v) THEN v.n[1] < 0 ELSE (v.n[1] < 0 \/ v.n[2] < 0)
+\* a fine decimal M / 2^e is M * 5^e / 10^e: its exact (finite) expansion.  This
+\* is NOT the host's shortest round-trip numeral (0.1 + 0.2 is written
+\* 0.30000000000000004, not 0.3000000000000000444089209850062616169452667236328125):
+\* the text of a fine decimal is defined so that Render is total and injective,
+\* but it is not exported for comparison with the implementation (C08 compares
+\* such decimals through its Python-driven path).
+RECURSIVE Mul5(_, _)
+Mul5(l, e) == IF e = 0 THEN l
+              ELSE IF e >= 5 THEN Mul5(MulCarry(l, 3125, 0), e - 5)
+              ELSE Mul5(MulCarry(l, 5, 0), e - 1)
+FineNumeral(v) ==
+  LET e == -v.n[2]
+      d == LimbDigits(Mul5(v.s, e))
+      p == IF Len(d) > e THEN d ELSE [i \in 1..(e + 1 - Len(d)) |-> 48] \o d
+  IN SubSeq(p, 1, Len(p) - e) \o <<46>> \o SubSeq(p, Len(p) - e + 1, Len(p))
 \* the numeral without sign
 Numeral(v) ==
   IF v.k = "int" THEN (IF IsBig(v) THEN LimbDigits(v.s) ELSE NatDigits(Abs(v.n[1])))
+  ELSE IF IsFine(v) THEN FineNumeral(v)
   ELSE IF IsBig(v) THEN LimbDigits(v.s) \o <<46, 48>>
   ELSE LET q == Abs(v.n[2])  p == Abs(v.n[1])  f == FracDigits(p % q, q) IN
        NatDigits(p \div q) \o <<46>> \o (IF f = << >> THEN <<48>> ELSE f)
@@ -284,7 +458,7 @@ RenderN(v) ==
     [] v.k = "bool" -> IF v.n[1] = 1 THEN TxtTRUE ELSE TxtFALSE
     [] IsNum(v) -> (IF IsNeg(v) THEN <<45>> ELSE << >>) \o Numeral(v)
     [] v.k = "str" -> Quote(v.s)
-    [] v.k = "date" -> v.s
+    [] v.k = "date" -> Stamp(v.s)
     [] v.k = "pat" -> <<47, 47>> \o v.s \o <<47, 47>>
     [] v.k = "ref" -> <<60, 35>> \o NatDigits(v.n[1]) \o <<62>>    \* not a data value
     [] v.k = "list" ->
@@ -311,7 +485,7 @@ TokensN(v) ==
     [] IsNum(v) -> (IF IsNeg(v) THEN <<Tok("operator", <<45>>)>> ELSE << >>)
                    \o <<Tok(IF v.k = "int" THEN "int" ELSE "decimal", Numeral(v))>>
     [] v.k = "str" -> <<Tok("string", v.s)>>            \* payload: the string itself
-    [] v.k = "date" -> <<Tok("int", v.s)>>
+    [] v.k = "date" -> <<Tok("int", Stamp(v.s))>>
     [] v.k = "pat" -> <<Tok("pattern", <<47, 47>> \o v.s \o <<47, 47>>)>>
     [] v.k = "ref" -> <<Tok("ref", NatDigits(v.n[1]))>>
     [] v.k = "list" ->
@@ -385,7 +559,11 @@ WF(v) ==
        \/ v.n[2] = 1 /\ Abs(v.n[1]) <= SmallMax /\ v.s = << >>
        \/ v.k = "dec" /\ v.n[2] \in Pow2 /\ Abs(v.n[1]) <= SmallMax /\ v.s = << >>
        \/ v.k = "dec" /\ v.n = <<0, -1>> /\ v.s = << >>
-  /\ v.k = "date" => Len(v.s) = 14 /\ IsDigits(v.s)
+       \/ v.k = "dec" /\ v.n[1] \in {-1, 1} /\ v.n[2] < 0 /\ v.n[2] >= -1100
+          /\ Len(v.s) >= 1 /\ v.s[Len(v.s)] > 0 /\ v.s[1] % 2 = 1       \* lowest terms
+          /\ (v.n[2] < -10 \/ MagCmp(v.s, <<0, 100>>) > 0)               \* not a small rational
+          /\ \A i \in DOMAIN v.s : v.s[i] >= 0 /\ v.s[i] <= 9999
+  /\ v.k = "date" => DateWF(v.s)
   /\ v.k \in {"list", "set", "map"} => v.s = << >>
   /\ v.k \notin {"list", "set", "map"} => v.items = << >>
   /\ v.k = "map" => Len(v.vals) = Len(v.items)
